@@ -46,7 +46,7 @@ type Impl struct {
 	PackLeGamma1, UnpackLeGamma1                 func(p *P, buf []byte)
 	PackW1                                       func(p *P, buf []byte)
 	PackHint                                     func(v []P, buf []byte)
-	UnpackHint                                   func(buf []byte) ([]P, bool)
+	UnpackHint                                   func(buf []byte, out []P) bool
 	DeriveUniform                                func(p *P, seed *[32]byte, nonce uint16)
 	DeriveUniformX4                              func(ps [4]*P, seed *[32]byte, nonces [4]uint16)
 	DeriveUniformLeqEta                          func(p *P, seed *[64]byte, nonce uint16)
